@@ -1,7 +1,7 @@
 // litx: literal observations over the real frontend (C19).
 //   T <hex source>  one scanner.NextToken() on the source: "T <type> <literal hex> <#diagnostics during that token>"
 //   P <hex source>  parser.Parse on the source: "P <#diagnostics> <codes> <one item per top level statement>"
-//                   items: S:<hex> I:<dec> F:<ieee bits hex> C:<dec> B:<0|1> -<item> L[<item>,...] for the
+//                   items: S:<hex> I:<dec> F:<ieee bits hex> C:<dec> B:<0|1> -<item> L[<item>,...] (<item>,op<n>,<item>) for the
 //                   initial value of a variable declaration, "!" for a bad declaration, "?<GoType>" otherwise.
 // ("-" stands for the empty byte string; only observables, never message texts.)
 package main
@@ -64,6 +64,8 @@ func item(e ast.Expression) string {
 		return fmt.Sprintf("?%T", e)
 	case *ast.Grouping:
 		return item(e.Expr)
+	case *ast.BinaryExpr:
+		return fmt.Sprintf("(%s,op%d,%s)", item(e.Lhs), int(e.Operator), item(e.Rhs))
 	case *ast.ListLit:
 		var parts []string
 		for _, v := range e.Values {
